@@ -10,11 +10,12 @@
    Verdict of `full`: ok iff
      1. parse_prog src is exactly that AST / that (Offset, Token);
      2. print_prog of the implementation's AST is exactly the bytes of String();
-     3. (model-level round trip) parse_prog (print_prog ast) = PAccept ast.
-   Otherwise (bad parse <model result>) | (bad print <h model bytes>) | (bad roundtrip <model result>). *)
+     3. (model-level round trip) parse_prog (print_prog ast) = PAccept ast;
+     4. the AST satisfies the syntactic description of the parser's image, WfAst.wf_prog.
+   Otherwise (bad parse <model result>) | (bad print <h model bytes>) | (bad roundtrip <model result>) | (bad wfq). *)
 From Coq Require Import List NArith ZArith Bool String Arith.
 From Verif Require Import common.Sexp sem.JV sem.Syntax sem.AstDecode c09.Lexer c09.Run c09.FullAst c09.Printer
-  c09.ParseActions c09.ParseFull.
+  c09.ParseActions c09.ParseFull c09.WfAst.
 Import ListNotations.
 Local Open Scope list_scope.
 
@@ -29,20 +30,23 @@ Definition check_parse (src : list N) (expected : sexp) : option sexp :=
   let r := enc_presult (parse_prog src) in
   if sexp_eq r expected then None else Some (SList [A "bad"; A "parse"; r]).
 
-Definition check_print (fuel : nat) (ast : sexp) (str : list N) : option sexp :=
-  match dec_prog fuel ast with
-  | None => Some (A "undecodable-ast")
-  | Some p =>
-      let out := print_prog p in
-      if list_N_eqb out str then None else Some (SList [A "bad"; A "print"; enc_hexl out])
-  end.
+Definition check_print (p : prog) (str : list N) : option sexp :=
+  let out := print_prog p in
+  if list_N_eqb out str then None else Some (SList [A "bad"; A "print"; enc_hexl out]).
 
-Definition check_roundtrip (fuel : nat) (ast : sexp) : option sexp :=
+Definition check_roundtrip (p : prog) : option sexp :=
+  let r := enc_presult (parse_prog (print_prog p)) in
+  if sexp_eq r (eprog p) then None else Some (SList [A "bad"; A "roundtrip"; r]).
+
+(* the implementation's AST lies in the syntactically described image of the parser (WfAst.wf_prog) *)
+Definition check_wfq (p : prog) : option sexp :=
+  if wf_prog p then None else Some (SList [A "bad"; A "wfq"]).
+
+(* the AST is decoded once *)
+Definition with_prog (fuel : nat) (ast : sexp) (checks : prog -> list (option sexp)) : list (option sexp) :=
   match dec_prog fuel ast with
-  | None => Some (A "undecodable-ast")
-  | Some p =>
-      let r := enc_presult (parse_prog (print_prog p)) in
-      if sexp_eq r (eprog p) then None else Some (SList [A "bad"; A "roundtrip"; r])
+  | None => [Some (A "undecodable-ast")]
+  | Some p => checks p
   end.
 
 Definition is_err (e : sexp) : bool := match e with SList (t :: _) => atom_is "err" t | _ => false end.
@@ -63,7 +67,7 @@ Definition run_full_sexp (fuel : nat) (e : sexp) : sexp :=
             if is_err b then first_bad [check_parse src b]
             else match dec_hexl c with
                  | None => A "undecodable"
-                 | Some str => first_bad [check_parse src b; check_print fuel b str; check_roundtrip fuel b]
+                 | Some str => first_bad (check_parse src b :: with_prog fuel b (fun p => [check_print p str; check_roundtrip p; check_wfq p]))
                  end
         end
       else A "undecodable"
@@ -71,7 +75,7 @@ Definition run_full_sexp (fuel : nat) (e : sexp) : sexp :=
       if atom_is "parse" k then
         match dec_hexl a with Some src => first_bad [check_parse src b] | None => A "undecodable" end
       else if atom_is "print" k then
-        match dec_hexl b with Some str => first_bad [check_print fuel a str] | None => A "undecodable" end
+        match dec_hexl b with Some str => first_bad (with_prog fuel a (fun p => [check_print p str])) | None => A "undecodable" end
       else A "undecodable"
   | _ => A "undecodable"
   end.
